@@ -27,45 +27,6 @@ def finding_key(req, obs, detail):
         eot = re.compile(r"\((?:E|B|T) \(")
         if key.startswith("tree-differs") and " ==> " in (obs or "") and not eot.search(req) and eot.search(obs.split(" ==> ", 1)[1]):
             key = pre + "(bin BitwiseAnd (id a) (id a)))"
-        # an expression in an expression-or-type position (template argument, sizeof) is printed with format_expression
-        # and read under Terminator::TypeList: an exposed `>`-family operator, `,` or `<` is misread whatever carries the
-        # position (call / type of a cast / nested type) — one key per operator family
-        exact = ("rejected-by-parser ret (sizeof (E (bin RightShift (id a) (id a))))",
-                 "rejected-by-parser ret (cast (tyt (n S) (E (bin RightShift (id a) (id a)))) (id a))")
-        fam = re.search(r"\(E \(bin (RightShift|GreaterThan|GreaterEqual|Sequence|LessThan) ", key)
-        if fam and key not in exact and not key.startswith("src "):
-            op = fam.group(1)
-            if op == "Sequence":
-                key = "tree-differs[list-length] ret (call (id a) ((E (bin Sequence (id a) (id a)))) ())"
-            elif op == "LessThan":
-                key = "tree-differs[call->bin:LessThan] ret (call (id a) ((E (bin LessThan (id a) (id a)))) ())"
-            else:
-                key = "rejected-by-parser ret (call (id a) ((E (bin RightShift (id a) (id a)))) ())"
-            return key
-        # an attribute argument that is a comma expression: printed with format_expression, read with parse_expression_no_seq
-        # (statement stream: whatever statement carries the attribute; source stream: `[a((a, a))]`)
-        if (key.startswith("st ") and re.search(r"\(attr [12] \(n [^)]*\) \([^\n]*\(bin Sequence ", key)) or \
-                (key.startswith("src ") and re.search(r"\[ \[? ?\w+ \( \( \w+ , \w+ \) \) \]", key)):
-            return "st tree-differs[list-length] attribute argument (bin Sequence (id a) (id b))"
-        # source stream, three more printer defects found with the broadened module generator (one key each, whatever else the
-        # 1-minimal program keeps around the construct)
-        if key.startswith("src "):
-            if re.search(r"template < [^>]* > \[ ", key) and "rejected-by-parser" in key:
-                return "src rejected-by-parser template < a > [ a ] a a ( ) { }"
-            if re.search(r"struct \w+ : \w+(?: , \w+)* \{", key) and "tree-differs" in key:
-                return "src tree-differs[module] struct a { } ; struct a : a { } ;"
-            if re.search(r"enum \w+ \{[^}]*= \( \S+ , ", key):
-                return "src rejected-by-parser enum a { a = ( a , a ) } ;"
-            if re.search(r"\w+ (?:\[ \S+ \] )?(?:: \w+ )?= \( \S+ , \S+ \) [,)]", key) and "rejected-by-parser" in key:
-                return "src rejected-by-parser a a ( a a = ( a , a ) ) { }"
-        # definition stream: a default argument that is a comma expression is the same printer defect as the source-stream
-        # class above (printed bare with format_expression, `float p = y, 36`, read with parse_expression_no_seq)
-        if key.startswith("def rejected-by-parser ") and re.search(r"\(param [^\n]*\(def \(bin Sequence ", key):
-            return "src rejected-by-parser a a ( a a = ( a , a ) ) { }"
-        # source stream: a declarator whose array size is a parenthesised comma expression (one class, whatever
-        # statement the 1-minimal program wraps around it)
-        if key.startswith("src rejected-by-parser ") and re.search(r"(?:\ba|>|,) a \[ \( \w+ , \w+ \) \]", key):
-            key = "src rejected-by-parser a a ( ) { a a [ ( a , a ) ] ; }"
         return key
     m = re.match(r"FAIL:panic ([^:]+):\d+: (.*)$", detail or "")
     if m:
@@ -83,22 +44,27 @@ SPEC = {
     "lean_modules": ["RsslVerif.Thm.C09", "RsslVerif.Thm.C10", "RsslVerif.Lemmas.LiteralText"],
     "level_note": "roundtrip_xexpr_partial / roundtrip_stmt_partial / roundtrip_decl_partial / roundtrip_function_partial / "
                   "roundtrip_struct_partial: WF / WFS / WFVarDef / WFFn / WFStruct are decidable syntactic carve-outs "
-                  "(notes/C09.md); integer literal text is proved (literal_roundtrip_int), float literal text, enums, cbuffers, "
+                  "(notes/C09.md; after fix batch 2 they no longer exclude operators in template / sizeof arguments nor comma "
+                  "expressions in attribute arguments and default values, and structs have base types); integer literal text is "
+                  "proved (literal_roundtrip_int), float literal text, enums, cbuffers, "
                   "globals and template parameter lists are reached by the correspondence run only",
     "theorems": [T + n for n in [
         "binToks_lexes", "unTok_lexes", "tables_agree", "assoc_agrees", "ternary_level", "unary_tables_agree",
         "glue_prefix_prefix", "glue_postfix_next", "glue_needs_space", "paren_rule_matches_grammar",
         "roundtrip_expr_partial", "roundtrip_subexpr_partial", "roundtrip_comma_positions_partial", "literal_roundtrip_partial", "negative_literals_break",
+        "negative_literal_binds_like_minus", "negative_literal_member_groups", "member_of_int_literal_roundtrips",
         "decimal_roundtrip",
         # full expression language (Model/FormatFull + Model/ParseFull)
         "source_fingerprints", "modifier_tables_agree", "roundtrip_xexpr_partial", "roundtrip_typeid_partial",
-        "sizeof_shift_breaks", "template_arg_shift_breaks", "template_arg_comma_regroups", "template_arg_less_regroups",
-        "less_greater_paren_regroups",
+        "eot_parenthesised_admissible", "eot_parenthesises_from_shift",
+        "sizeof_shift_roundtrips", "template_arg_shift_roundtrips", "template_arg_comma_roundtrips", "template_arg_less_roundtrips",
+        "former_witnesses_wf", "less_greater_paren_regroups",
         # statements and local variable definitions (Model/FormatStmt + Model/ParseStmt)
         "roundtrip_stmt_partial", "roundtrip_block_partial", "roundtrip_decl_partial", "dangling_else_regroups",
-        "attribute_comma_regroups", "for_init_pointer_reads_as_expr",
+        "attribute_comma_roundtrips", "for_init_pointer_reads_as_expr",
         # function and struct definitions (Model/FormatDef + Model/ParseDef)
-        "roundtrip_param_partial", "roundtrip_function_partial", "roundtrip_struct_partial", "default_arg_comma_rejected",
+        "roundtrip_param_partial", "roundtrip_function_partial", "roundtrip_struct_partial", "default_arg_comma_roundtrips",
+        "struct_base_types_roundtrip", "definition_header_tables_agree",
         # text of integer literals through C10's lexer model
         "literal_roundtrip_int"]] + [
         # "every literal reads back with the same value and type": the reading half is property C10's; its literal
@@ -126,8 +92,15 @@ SPEC = {
                   "definition with attributes, in / out / inout parameters with declarators, semantics and default values, and any "
                   "body (roundtrip_function_partial), every struct of member definitions and methods (roundtrip_struct_partial), at "
                   "every nesting depth, for every set of type names. The carve-outs (WF, WFS, WFVarDef, WFFn, WFStruct) are decidable and syntactic; for the shapes "
-                  "they exclude that really fail (operators exposed in template / sizeof arguments, a < b > (c), dangling else, comma "
-                  "in attribute arguments and default values) the negation is proved with a witness. Table-level obligations (precedence <-> level, "
+                  "they exclude that really fail (a < b > (c), dangling else, a pointer definition in a for initialiser, negative "
+                  "literals) the negation is proved with a witness. The shapes repaired by fix batch 2 are covered now and their former "
+                  "witnesses are positive theorems: every operator in a template / sizeof argument (printed at (7, CommaList): "
+                  "eot_parenthesised_admissible, sizeof_shift_roundtrips, template_arg_*_roundtrips), comma expressions in attribute "
+                  "arguments and default values (attribute_comma_roundtrips, default_arg_comma_roundtrips), an integer literal as the "
+                  "object of a member access (member_of_int_literal_roundtrips), struct base types (struct_base_types_roundtrip), and a "
+                  "negative literal is parenthesised exactly like the unary minus of its magnitude (negative_literal_binds_like_minus; "
+                  "paren_rule_matches_grammar quantifies over negative literals as productions of the prefix level). "
+                  "Table-level obligations (precedence <-> level, "
                   "associativity, spelling <-> tokens, operator glue, modifier spelling <-> keyword <-> parser arm) are decided over "
                   "the regenerated tables, and 63 hand-modelled functions are fingerprinted. The text of non-negative integer literals of every suffix is "
                   "proved to read back through C10's lexer model (literal_roundtrip_int); enums, cbuffers, globals, template "
@@ -143,7 +116,10 @@ SPEC = {
             "methods and base types, enums, cbuffers, namespaces, resource globals). non-trivial = at least two operator nodes",
     "trusted_base": [
         "Lean 4.33 kernel; axioms propext / Classical.choice / Quot.sound only (audited by #print axioms)",
-        "tools/gens/c09.py (FmtTables, ParseTables as before; SyntaxTables: TypeModifier variants and Debug spellings, lexer "
+        "tools/gens/c09.py (FmtTables, ParseTables as before + the guarded literal arms of get_expression_precedence and the "
+        "is_int_literal test of the Member arm; SyntaxTables: the (precedence, side) of expression-or-type positions, attribute "
+        "arguments, default values and enum values, the order template parameters / attributes of format_function, whether "
+        "format_struct prints base types, TypeModifier variants and Debug spellings, lexer "
         "keyword table, parse_type_modifiers_before/after arms, cast / sizeof / call arms and alternative orders (shape "
         "checks), sha256 fingerprints of 63 hand-modelled functions) - re-run on /repo's working tree every time",
         "hand-written Model/Format.lean, Model/Parse.lean (first model), Model/FormatFull.lean, Model/ParseFull.lean (casts, "
@@ -159,7 +135,9 @@ SPEC = {
         "type names: the model is run with the set W of names that are types; the real parser returns all readings and the "
         "type checker picks with W (the harness resolves the same way)",
         "white space of statements is compared collapsed; BracedInit, attributes on declarators, location annotations of "
-        "locals, StaticSampler, template parameter lists, const / volatile methods, register / packoffset annotations and "
-        "struct base types are answered `unsupported` by the model and judged by the oracle only",
+        "locals, StaticSampler, template parameter lists, const / volatile methods and register / packoffset annotations "
+        "are answered `unsupported` by the model and judged by the oracle only",
+        "an expression-or-type position is compared on what syntax can tell: `Either(expr, type)` equals `Expression(expr)` "
+        "(`T<(n[b])>` prints `T<n[b]>`, which reads back as Either; neither form is accepted by the type checker)",
     ],
 }
